@@ -492,6 +492,68 @@ def process_event_branches(tab):
     return branches, fn
 
 
+CONTROL_ATTRS = ("_iteration", "_resolve", "_last_schedule_update", "event_queue", "event_history", "scheduler")
+
+
+def opaque_ok(stmt):
+    """an opaque statement of the loop body must not touch what the loop model tracks explicitly"""
+    for n in ast.walk(stmt):
+        if isinstance(n, ast.Attribute) and isinstance(n.value, ast.Name) and n.value.id == "self":
+            if isinstance(n.ctx, ast.Store) and n.attr in CONTROL_ATTRS:
+                return False
+        if isinstance(n, ast.Call):
+            f = ast.unparse(n.func)
+            if f.startswith("self.event_queue.") and f.split(".")[-1] not in ("empty", "get_last_timestamp"):
+                return False
+            if f.startswith("self.scheduler.") or f in ("self._process_event", "self.event_history.append"):
+                return False
+        if isinstance(n, (ast.Return, ast.Raise, ast.Break, ast.Continue)):
+            return False
+    return True
+
+
+def run_loop_program(tab):
+    """the body of the `while` of Simulator.run as a flat program: (guarded by the recompute test?, statement)"""
+    _, fn = tab.method("Simulator", "run")
+    loops = [s for s in fn.body if isinstance(s, ast.While)]
+    if len(loops) != 1 or loops[0].orelse:
+        raise Untranslatable("Simulator.run: expected exactly one while loop")
+    prog = []
+    seen_if = False
+
+    def classify(st, guarded):
+        txt = ast.unparse(st)
+        if txt == "current_events = self.event_queue.get_current_events(self._iteration)":
+            return "RS_pop"
+        if txt == "for e in current_events:\n    self.event_history.append(e)\n    self._process_event(e)":
+            return "RS_process"
+        if txt == "new_schedule = self.scheduler.run()":
+            return "RS_call"
+        if txt == "self._last_schedule_update = self._iteration":
+            return "RS_set_last_iter"
+        if txt in ("self._resolve = False", "self._resolve = True"):
+            return "RS_set_resolve %s" % ("false" if txt.endswith("False") else "true")
+        if txt == "self._iteration = self._iteration + 1":
+            return "RS_inc_iter"
+        if not opaque_ok(st):
+            raise Untranslatable("Simulator.run:%d: statement %s" % (st.lineno, txt.split("\n")[0]))
+        return "RS_rest %s" % cstr(txt)
+    for st in loops[0].body:
+        if isinstance(st, ast.If) and any(isinstance(n, ast.Call) and ast.unparse(n.func) == "self.scheduler.run"
+                                          for n in ast.walk(st)):
+            if seen_if or st.orelse:
+                raise Untranslatable("Simulator.run:%d: second scheduler call / else branch" % st.lineno)
+            seen_if = True
+            prog.append("(false, RS_test_due)")
+            for b in st.body:
+                prog.append("(true, %s)" % classify(b, True))
+        else:
+            prog.append("(false, %s)" % classify(st, False))
+    if not seen_if:
+        raise Untranslatable("Simulator.run: no `if ...: self.scheduler.run()` in the loop")
+    return prog, loops[0]
+
+
 def event_constants(tab):
     """event_type string and precedence set by each event class constructor (nearest assignment wins)"""
     out = []
@@ -575,6 +637,13 @@ def _generate(repo):
         "(%s, %s)" % (cstr(t), clist(effs)) for t, effs in br))
     info.append(dict(name="process_event_branches", file=FILES["simulator"], qual="Simulator._process_event",
                      line=pfn.lineno, end_line=pfn.end_lineno, fingerprint=fingerprint(pfn)))
+    lines.append("")
+    prog, loop = run_loop_program(tab)
+    lines.append("(* the body of the while loop of Simulator.run, statement by statement; true = inside the")
+    lines.append("   `if <recompute condition>:` block (the condition itself is Gen/ResumeZ_Z.Run_recompute) *)")
+    lines.append("Definition run_loop_prog : list (bool * run_stmt) :=\n  %s." % clist(prog).replace("; (", ";\n   ("))
+    info.append(dict(name="run_loop_prog", file=FILES["simulator"], qual="Simulator.run",
+                     line=loop.lineno, end_line=loop.end_lineno, fingerprint=fingerprint(loop)))
     lines.append("")
     ec = event_constants(tab)
     lines.append("(* event constructors: class, event_type, precedence (float('inf') is written %d) *)" % INF_PRECEDENCE)
